@@ -434,6 +434,33 @@ static void bad_LST1_tail_before_switch(cJSON *parent, cJSON *item, cJSON *repla
     if (replacement->next == NULL) { parent->child->prev = replacement; }
     if (parent->child == item) { parent->child = replacement; }
 }
+/* OWN11: a node handed over by value and then freed alone */
+static void fx_overwrite_keeps_name(cJSON * const root, const cJSON replacement)
+{
+    char *name = root->string;
+    memcpy(root, &replacement, sizeof(cJSON));
+    root->string = name;             /* the replacement's name is in nobody's hands now */
+}
+static void fx_overwrite_all(cJSON * const root, const cJSON replacement)
+{
+    memcpy(root, &replacement, sizeof(cJSON));
+}
+void bad_OWN11_frees_node_alone(cJSON *root, cJSON *value)
+{
+    fx_overwrite_keeps_name(root, *value);
+    cJSON_free(value);
+}
+void good_releases_name_first(cJSON *root, cJSON *value)
+{
+    fx_overwrite_keeps_name(root, *value);
+    cJSON_free(value->string);
+    cJSON_free(value);
+}
+void good_everything_moved(cJSON *root, cJSON *value)
+{
+    fx_overwrite_all(root, *value);
+    cJSON_free(value);
+}
 /* ESC5: a search-driven decoder resumes behind the character it just decoded */
 static void bad_ESC5_resume_at_decoded(unsigned char *string)
 {
